@@ -1,5 +1,5 @@
 #![allow(dead_code)]
 use parity_scale_codec::{Compact, Decode, Encode};
-#[derive(parity_scale_codec::CompactAs)]
-pub struct T { #[codec(skip)] a: u32 }
+#[derive(Encode, Decode)]
+pub struct T(pub u32, #[codec(skip)] #[codec(encoded_as = "Compact<u64>")] pub u64);
 fn main() {}
